@@ -27,4 +27,13 @@ CLAIMS["C01"] = {
     "technique": "CFG path queries (pending-data discharge, dominance of guards) + linear normal forms of seek/slice arithmetic (AST)",
 }
 
+CLAIMS["C14"] = {
+    "text": "Decides by constant evaluation that the ASCII complement table and the complement lookup of every DNA alphabet literal map each of A,C,G,T,N (both cases for ASCII) to its "
+            "Watson-Crick partner and nothing else, that reverse complement is that lookup reversed along the last axis with the operand's own shape, that all 64 codons translate - through "
+            "the index formula read from the code (codon reversal, little-endian base-4 weights, source alphabet order) - to NCBI table 1, that codons are consecutive windows of 3, and that at "
+            "every strand selector the '+' side is the forward value; extraction bounds are exactly the interval columns. Exhaustive over the finite letter/codon domains.",
+    "note": _NOTE + "Embedded specification: Watson-Crick pairs, NCBI translation table 1. Not decided: row-length preservation of ragged reversal (npstructures).",
+    "technique": "constant evaluation of lookup tables against embedded specifications + dataflow-role orientation checks (AST)",
+}
+
 NOT_APPLICABLE = {}
